@@ -143,6 +143,11 @@ func runC16(tier string, seed uint64) {
 		newTwin("opts-off-first", "bases-hostbucket-off-first", bases[:1]),
 		newTwin("opts-off-last", "bases-hostbucket-off-last", bases[:1]),
 		newTwin("opts-none-explicit", "none-explicit", nil),
+		// bases that begin with the letters of a URL scheme (a base is a host name, taken as it is written)
+		newTwin("base-scheme-letters-t", "bases", []string{"test.example", "host.example:9000"}),
+		newTwin("base-scheme-letters-h", "bases", []string{"test.example", "host.example:9000"}),
+		newTwin("base-scheme-letters-p", "bases", []string{"play.example", "p.example", "http.example"}),
+		newTwin("base-scheme-letters-fallback", "bases", []string{"test.example", "host.example:9000"}),
 		newTwin("opts-base-replaced", "bases-replaced", bases[:1]),
 		newTwin("opts-base-replaced-old-host", "bases-replaced", bases[:1]),
 		newTwin("opts-base-switched-off", "bases-switched-off", bases[:1]),
@@ -254,6 +259,14 @@ func runC16(tier string, seed uint64) {
 				host = "x." + l.bucket + ".s3.example.com"
 			case "both-fallback-unrelated":
 				host = l.bucket + ".elsewhere.org"
+			case "base-scheme-letters-t":
+				host, path = l.bucket+".test.example", l.hostStyle()
+			case "base-scheme-letters-h":
+				host, path = l.bucket+".host.example:9000", l.hostStyle()
+			case "base-scheme-letters-p":
+				host, path = l.bucket+[]string{".play.example", ".p.example", ".http.example"}[len(l.key)%3], l.hostStyle()
+			case "base-scheme-letters-fallback":
+				host = l.bucket + ".est.example" // what is left of a base when its first letter is cut off names no base
 			case "opts-base-replaced-old-host":
 				host = l.bucket + ".old.example" // no longer a base: path-style
 			case "opts-base-switched-off":
